@@ -19,7 +19,7 @@ func genC13(dir, tier string, seed int64) {
 	}
 	hdr := "From Coq Require Import List String ZArith.\nFrom V Require Import Case Run CheckC01 CheckC13.\nImport ListNotations.\nOpen Scope string_scope.\nOpen Scope Z_scope.\nDefinition cases : list scase := ["
 	cw := newCaseWriter(dir, "C13_signatures", hdr, opFooter,
-		"seeded random signatures: 1..3 declared inputs of rank 1..4, each dimension fixed (1..4), symbolic or unspecified; 0..1 of them shadowed by an initializer; one node reads every input; supplied sets: exact (dynamic dimensions of random size), one tensor missing, an extra tensor, tensors swapped between names, rank -1/+1 (0..5), one axis off by one, initializer-shadowed input supplied or not", false, 300)
+		"seeded random signatures: 1..3 declared inputs of rank 1..4, each dimension fixed (1..4), symbolic or unspecified; 0..1 of them shadowed by an initializer; one node reads every input, except (one case in three) a further declared input that no node reads; supplied sets: exact (dynamic dimensions of random size), one tensor missing, an extra tensor, tensors swapped between names, rank -1/+1 (0..5), one axis off by one, initializer-shadowed input supplied or not", false, 300)
 	intro := goOnlyResult{Stream: "C13_introspection_and_purity", Rule: "for every generated signature: InputNames/InputShapes/InputDimSize report exactly the declared names, ranks, fixed sizes and dynamic flags; a rejected Run returns no outputs and leaves every supplied tensor bit-identical", Violations: []string{}}
 	for i := 0; i < n; i++ {
 		c := &sgraphCase{initVals: map[string]stens{}, feed: map[string]stens{}, opset: 13}
@@ -58,8 +58,31 @@ func genC13(dir, tier string, seed int64) {
 				delete(c.feed, nm)
 			}
 		}
-		c.nodes = []snode{{op: 1, attr: 3, nout: 1, in: names, out: []string{"y"}}}
+		c.nodes = []snode{{op: 1, attr: 3, nout: 1, in: append([]string{}, names...), out: []string{"y"}}}
 		c.outputs = []string{"y"}
+		// one case in three: a further declared input that NO node reads (a mask, a flag left in the
+		// signature): it is required and checked like any other
+		if r.Intn(3) == 0 {
+			in := sinput{name: "dangling"}
+			rank := 1 + r.Intn(3)
+			shape := make([]int, rank)
+			for a := 0; a < rank; a++ {
+				if r.Intn(2) == 0 {
+					v := int64(1 + r.Intn(4))
+					in.dims = append(in.dims, sdim{kind: "fixed", value: v})
+					shape[a] = int(v)
+				} else {
+					in.dims = append(in.dims, sdim{kind: "param", name: fmt.Sprintf("M%d", a)})
+					shape[a] = 1 + r.Intn(5)
+				}
+			}
+			c.inputs = append(c.inputs, in)
+			names = append(names, in.name)
+			c.feed[in.name] = stens{shape, int64(100 + r.Intn(900))}
+			if r.Intn(2) == 0 { // perturbations below aim at it
+				names = []string{in.name}
+			}
+		}
 		// half of the cases: a Run with the exact, valid supplied set precedes the observed call on the
 		// same Model (what Run enforces must not depend on earlier Runs)
 		if r.Intn(2) == 0 {
@@ -78,8 +101,8 @@ func genC13(dir, tier string, seed int64) {
 		case 3: // extra tensor
 			c.feed["unrelated"] = stens{[]int{2}, 1}
 		case 4: // swapped between names
-			if nIn >= 2 {
-				a, b := names[0], names[1]
+			if len(names) >= 2 {
+				a, b := names[0], names[len(names)-1]
 				ta, oka := c.feed[a]
 				tb, okb := c.feed[b]
 				if oka && okb {
